@@ -2,6 +2,7 @@ SPECIFICATION Spec
 CONSTANTS
   Reqs = {1, 2, 3}
   MaxTag = 7
+  FixSent = TRUE
   ReleaseOnTimeout = TRUE
 INVARIANT NoViolation
 CHECK_DEADLOCK FALSE
